@@ -117,44 +117,45 @@ def main(ctx):
     rnd = random.Random(ctx.seed + 3)
     W = 4 if quick else 8
 
-    # ---- 1. design check -------------------------------------------------
-    elm = '"few"' if quick else '"all"'
-    tlc_run(ctx, 'dh 1 edit, enc lists vary', KexType='"dh"',
-            VaryCats='{"enc"}', EditListMode=elm, workers=W)
-    tlc_run(ctx, 'gex 1 edit, kex lists vary', KexType='"gex"',
-            VaryCats='{"kex"}', EditListMode=elm, workers=W)
-    tlc_run(ctx, 'rsa 1 edit, mac lists vary, trust-all too',
-            KexType='"rsa"', VaryCats='{"mac"}', EditListMode='"few"',
-            TrustAllSet='{FALSE, TRUE}', workers=W)
-    if not quick:
-        tlc_run(ctx, 'dh 2 edits, enc lists vary (few edit lists)',
-                KexType='"dh"', MaxEdits=2, VaryCats='{"enc"}',
-                EditListMode='"single"', workers=W)
-        tlc_run(ctx, 'gex 2 edits', KexType='"gex"', MaxEdits=2,
-                EditListMode='"few"', workers=W)
-        tlc_run(ctx, 'rsa 2 edits', KexType='"rsa"', MaxEdits=2,
-                EditListMode='"few"', TrustAllSet='{FALSE, TRUE}', workers=W)
-        tlc_run(ctx, 'dh 0 edits, kex+enc+mac lists vary', KexType='"dh"',
-                MaxEdits=0, VaryCats='{"kex", "enc", "mac"}', workers=W)
-        tlc_run(ctx, 'dh 1 edit, hostkey+cmp lists vary', KexType='"dh"',
-                VaryCats='{"hostkey", "cmp"}', EditListMode='"few"',
-                workers=W)
-    # sensitivity: weakened rules must be rejected
-    tlc_run(ctx, 'sensitivity: hash omits client KEXINIT', KexType='"dh"',
-            HashOmit='{"IC"}', EditListMode='"few"', expect='EditDetected',
-            invariants=['EditDetected'], workers=W)
-    tlc_run(ctx, 'sensitivity: hash omits server version', KexType='"gex"',
-            HashOmit='{"VS"}', EditListMode='"few"', expect='EditDetected',
-            invariants=['EditDetected'], workers=W)
-    tlc_run(ctx, 'sensitivity: both KEXINITs unhashed allow a downgrade',
-            KexType='"dh"', HashOmit='{"IC", "IS"}', MaxEdits=2,
-            VaryCats='{"enc"}', EditListMode='"single"',
-            EditMsgs='{"IC", "IS"}', EditFields='{"enc_cs", "enc_sc"}',
-            expect='NoDowngrade', invariants=['NoDowngrade'], workers=W)
-    tlc_run(ctx, 'sensitivity: choose_alg prefers the server list',
-            KexType='"dh"', PreferServer='TRUE', MaxEdits=0,
-            VaryCats='{"enc"}', expect='NoDowngrade',
-            invariants=['NoDowngrade'], workers=W)
+    if not ctx.replay_path:
+        # ---- 1. design check -------------------------------------------------
+        elm = '"few"' if quick else '"all"'
+        tlc_run(ctx, 'dh 1 edit, enc lists vary', KexType='"dh"',
+                VaryCats='{"enc"}', EditListMode=elm, workers=W)
+        tlc_run(ctx, 'gex 1 edit, kex lists vary', KexType='"gex"',
+                VaryCats='{"kex"}', EditListMode=elm, workers=W)
+        tlc_run(ctx, 'rsa 1 edit, mac lists vary, trust-all too',
+                KexType='"rsa"', VaryCats='{"mac"}', EditListMode='"few"',
+                TrustAllSet='{FALSE, TRUE}', workers=W)
+        if not quick:
+            tlc_run(ctx, 'dh 2 edits, enc lists vary (few edit lists)',
+                    KexType='"dh"', MaxEdits=2, VaryCats='{"enc"}',
+                    EditListMode='"single"', workers=W)
+            tlc_run(ctx, 'gex 2 edits', KexType='"gex"', MaxEdits=2,
+                    EditListMode='"few"', workers=W)
+            tlc_run(ctx, 'rsa 2 edits', KexType='"rsa"', MaxEdits=2,
+                    EditListMode='"few"', TrustAllSet='{FALSE, TRUE}', workers=W)
+            tlc_run(ctx, 'dh 0 edits, kex+enc+mac lists vary', KexType='"dh"',
+                    MaxEdits=0, VaryCats='{"kex", "enc", "mac"}', workers=W)
+            tlc_run(ctx, 'dh 1 edit, hostkey+cmp lists vary', KexType='"dh"',
+                    VaryCats='{"hostkey", "cmp"}', EditListMode='"few"',
+                    workers=W)
+        # sensitivity: weakened rules must be rejected
+        tlc_run(ctx, 'sensitivity: hash omits client KEXINIT', KexType='"dh"',
+                HashOmit='{"IC"}', EditListMode='"few"', expect='EditDetected',
+                invariants=['EditDetected'], workers=W)
+        tlc_run(ctx, 'sensitivity: hash omits server version', KexType='"gex"',
+                HashOmit='{"VS"}', EditListMode='"few"', expect='EditDetected',
+                invariants=['EditDetected'], workers=W)
+        tlc_run(ctx, 'sensitivity: both KEXINITs unhashed allow a downgrade',
+                KexType='"dh"', HashOmit='{"IC", "IS"}', MaxEdits=2,
+                VaryCats='{"enc"}', EditListMode='"single"',
+                EditMsgs='{"IC", "IS"}', EditFields='{"enc_cs", "enc_sc"}',
+                expect='NoDowngrade', invariants=['NoDowngrade'], workers=W)
+        tlc_run(ctx, 'sensitivity: choose_alg prefers the server list',
+                KexType='"dh"', PreferServer='TRUE', MaxEdits=0,
+                VaryCats='{"enc"}', expect='NoDowngrade',
+                invariants=['NoDowngrade'], workers=W)
 
     # ---- 2. replay of edited handshakes ----------------------------------
     avail = H.available_kex()
@@ -171,19 +172,20 @@ def main(ctx):
                      f'replayed for: {main_fams if quick else avail}')
 
     tables = {}
-    for kt in ('dh', 'gex', 'rsa'):
-        tables[kt, 1] = emit_cases(ctx, f'{kt} 1 edit fixed lists',
-                                   KexType=f'"{kt}"', MaxEdits=1,
-                                   EditListMode='"all"')
-    two = emit_cases(ctx, 'dh 2 edits fixed lists, few values',
-                     KexType='"dh"', MaxEdits=2, EditListMode='"few"',
-                     EditFields='{"v","pad","cookie","kex","enc_cs","enc_sc",'
-                                '"mac_sc","ff","strict","e","f","ks","sig"}')
-    tables['dh', 2] = [c for c in two if len(c['edits']) == 2]
+    if not ctx.replay_path:
+        for kt in ('dh', 'gex', 'rsa'):
+            tables[kt, 1] = emit_cases(ctx, f'{kt} 1 edit fixed lists',
+                                       KexType=f'"{kt}"', MaxEdits=1,
+                                       EditListMode='"all"')
+        two = emit_cases(ctx, 'dh 2 edits fixed lists, few values',
+                         KexType='"dh"', MaxEdits=2, EditListMode='"few"',
+                         EditFields='{"v","pad","cookie","kex","enc_cs","enc_sc",'
+                                    '"mac_sc","ff","strict","e","f","ks","sig"}')
+        tables['dh', 2] = [c for c in two if len(c['edits']) == 2]
 
     state = {'n': 0, 'traces': 0, 'tally': {}}
 
-    def judge(o, case, kex, names, label, bytelevel=None):
+    def judge(o, case, kex, names, label, bytelevel=None, recipe=None):
         """Monitors on the observed outcome + comparison with the model."""
         state['n'] += 1
         kt = H.spec_kextype(kex)
@@ -191,9 +193,7 @@ def main(ctx):
         bound = 'bound' in eff
         fields = [f'{e["msg"]}.{e["field"]}' for e in case['edits']] \
             if case else [bytelevel]
-        replay = {'kind': 'handshake', 'kex': kex, 'label': label,
-                  'edits': case['edits'] if case else bytelevel,
-                  'client': case and case['c'], 'server': case and case['s']}
+        replay = dict(recipe or {}, kex=kex, label=label)
         sig = {'module': 'Handshake', 'kextype': kt, 'fields': fields}
         tk = ('+'.join(sorted(set(eff))) or 'no edit',
               'completed' if o.completed else 'failed')
@@ -251,7 +251,9 @@ def main(ctx):
                             trust='none' if case['trustall'] else 'known',
                             server_hostkeys=shk, client_hostkey_algs=chk,
                             run_command=run_command)
-        judge(o, case, kex, names, label)
+        recipe = {'kind': 'case', 'case': case, 'names': names,
+                  'variant': variant}
+        judge(o, case, kex, names, label, recipe=recipe)
         # an edit whose message never travelled (the exchange had already
         # failed) cannot be compared beyond "failed"
         model_compare(o, case['done_c'], kex, label)
@@ -269,9 +271,7 @@ def main(ctx):
                               f'{kex}: {label}: negotiated {got}, the '
                               f'specification (first on the client list '
                               f'that the server supports) says {want}',
-                              replay={'kind': 'handshake', 'kex': kex,
-                                      'client': cl, 'server': sl,
-                                      'edits': case['edits']})
+                              replay=dict(recipe, kex=kex))
         state['traces'] += 1
         ctx.count((kex if kex in main_fams else H.spec_kextype(kex),
                    tuple((e['msg'], e['field'], e['val'])
@@ -285,6 +285,34 @@ def main(ctx):
                             'diffie-hellman-group14-sha256',
                             'ecdh-sha2-nistp384') if k != kex]
         return pool[:2]
+
+    if ctx.replay_path:
+        import json
+        with open(ctx.replay_path) as f:
+            rp = json.load(f)['replay']
+        kex = rp['kex']
+        if rp['kind'] == 'case':
+            o = replay_case(kex, rp['case'], rp['names'], rp['variant'])
+        else:
+            names = names_for(kex, pick_others(kex))
+            if rp['narrow']:
+                cl, chk = fixed_lists(names)
+                sl, shk = fixed_lists(names)
+            else:
+                cl, chk, sl, shk = {}, ['ssh-ed25519'], {}, ['ssh-ed25519']
+            ed = {'msg': rp['msg'], 'fn': H.e_flip(rp['offset'], rp['mask']),
+                  'label': rp['label']}
+            o = H.run_handshake(kex, client=cl, server=sl, edits=[ed],
+                                server_hostkeys=shk, client_hostkey_algs=chk)
+            judge(o, None, kex, names, rp['label'],
+                  bytelevel=f'{rp["msg"]}:{(o.effects or ["none"])[0]}',
+                  recipe=rp)
+        print(f'replayed {rp["label"]}: completed={o.completed} '
+              f'client_error={o.client_exc!r} server={o.server_lost} '
+              f'effects={o.effects}')
+        ctx.traces_validated(1)
+        ctx.level = 'exploration'
+        return
 
     sampled = 0
     kex_list = main_fams if quick else avail
@@ -337,6 +365,25 @@ def main(ctx):
                 continue
             seen.add(key)
             replay_case(kex, case, names, variant=ki, run_command=False)
+    # range checks on public values: 0, 1, p-1, p, p+1, negative, other
+    # group elements; EC points off the curve, wrong length, empty
+    for ki, kex in enumerate(kex_list):
+        if H.family(kex) == 'rsa' or kex in slow:
+            continue
+        names = names_for(kex, pick_others(kex))
+        cfg1 = {c: ['strong'] for c in ('kex', 'hostkey', 'enc', 'mac', 'cmp')}
+        msgs = {'e': 'INIT', 'f': 'REPLY'}
+        for fld in ('e', 'f'):
+            for kind, nvar in (('junk', 6), ('invalid', 5)):
+                for var in range(nvar):
+                    val = '[who |-> "adv"]' if kind == 'junk' else \
+                        '[who |-> "invalid"]'
+                    case = dict(c=cfg1, s=cfg1, trustall=False,
+                                edits=[dict(msg=msgs[fld], field=fld,
+                                            val=val)],
+                                done_c=False, done_s=False, chosen={})
+                    replay_case(kex, case, names, variant=var,
+                                run_command=False)
     # two edits
     t2 = tables['dh', 2]
     rnd.shuffle(t2)
@@ -380,7 +427,9 @@ def main(ctx):
             o = H.run_handshake(kexp, client=cl, server=sl,
                                 server_hostkeys=shk, client_hostkey_algs=chk)
             label = f'lists {cat} c={case["c"]} s={case["s"]}'
-            judge(o, dict(case, edits=[]), kexp, names, label)
+            judge(o, dict(case, edits=[]), kexp, names, label,
+                  recipe={'kind': 'case', 'case': dict(case, edits=[]),
+                          'names': names, 'variant': 0})
             allcommon = all(v is not None for v in exp.values())
             if o.completed:
                 got, _ = H.negotiated(o)
@@ -394,9 +443,8 @@ def main(ctx):
                         f'client list that the server supports: '
                         f'(got, expected) = {bad}; client {cl} {chk}, '
                         f'server {sl} {shk}',
-                        replay={'kind': 'lists', 'client': cl, 'server': sl,
-                                'client_hostkeys': chk,
-                                'server_hostkeys': shk})
+                        replay={'kind': 'case', 'kex': kexp, 'names': names,
+                                'case': dict(case, edits=[]), 'variant': 0})
             model_compare(o, case['done_c'], kexp, label)
             if case['done_c'] != allcommon:
                 raise MachineryError(f'spec and statement disagree on {label}')
@@ -437,7 +485,9 @@ def main(ctx):
                 n += 1
                 eff = o.effects[0] if o.effects else 'none'
                 judge(o, None, kex, names, ed['label'],
-                      bytelevel=f'{m.name}:{eff}')
+                      bytelevel=f'{m.name}:{eff}',
+                      recipe={'kind': 'byte', 'msg': m.name, 'offset': off,
+                              'mask': mask, 'narrow': narrow})
                 # model: bound / framing -> fail; harmless -> complete
                 model_compare(o, eff == 'harmless', kex, ed['label'])
                 if o.completed and eff == 'harmless':
